@@ -453,7 +453,398 @@ let run_hist (path : string) =
    with End_of_file -> ());
   close_in ic
 
+
+(* ====================================================================
+   check mode: evaluate the L0 property checkers (extracted from Spec.v)
+   on the IMPLEMENTATION's output.  The abstract state is driven only by
+   what the implementation itself reported (publish results, reported
+   deletes). *)
+
+let parse_full_msg (tok : string) : msg =
+  match String.split_on_char '|' tok with
+  | [o; t; k; v] -> { moff = z_of_string o; mtime = z_of_string t;
+                      mkey = bytes_of_hex k; mval = bytes_of_hex v }
+  | _ -> failwith ("bad full msg " ^ tok)
+
+let eclass_of_string (s : string) : eclass =
+  match s with
+  | "NotFound" -> CNotFound | "InvalidOffset" -> CInvalidOffset | "NoIndex" -> CNoIndex
+  | "Readonly" -> CReadonly | "LogCorrupted" -> CLogCorrupted
+  | "IndexCorrupted" -> CIndexCorrupted | "NotExist" -> CNotExist | "TooBig" -> CTooBig
+  | "Locked" -> CLocked | "Panic" -> CPanic | "Closed" -> CClosed | _ -> COther
+
+type cst = {
+  mutable a : alog;
+  mutable ckeys_ : bool;
+  mutable ctimes_ : bool;
+  mutable cro_ : bool;
+  mutable copen : bool;
+  mutable cnewv : ver;
+  mutable v1ok : bool;
+  mutable v2ok : bool;
+  mutable mono_hist : bool;
+  mutable neg_time : bool;
+  mutable last_pub_time : z option;
+  mutable last_stat_size : z option;      (* Stat size, valid until the next mutation *)
+  mutable size_bound : z option;          (* pending C15 post-condition of trims *)
+  mutable cons1 : (int * (z * msg list) obs) list;   (* Consume(off,1) seen in this state *)
+  mutable gets : (int * msg obs) list;
+  mutable bk : (string * alog) list;      (* abstract state at the time of each backup *)
+  mutable tainted : bool;                 (* a failed mutation or crash op: state unknown *)
+}
+
+let cfresh () = { a = empty_log; ckeys_ = false; ctimes_ = false; cro_ = false; copen = false;
+                  cnewv = V2; v1ok = false; v2ok = false; mono_hist = true; neg_time = false;
+                  last_pub_time = None; last_stat_size = None; size_bound = None;
+                  cons1 = []; gets = []; bk = []; tainted = false }
+
+let toks (s : string) : string list = List.filter (fun x -> x <> "") (String.split_on_char ' ' s)
+
+let obs_of (r : string list) (f : string list -> 'a) : 'a obs =
+  match r with
+  | "ok" :: rest -> OOk (f rest)
+  | "err" :: c :: _ -> OErr (eclass_of_string c)
+  | _ -> OErr COther
+
+let p_consume rest = match rest with
+  | n :: ms -> (z_of_string n, List.map parse_full_msg ms)
+  | [] -> failwith "consume result"
+let p_msg rest = match rest with m :: _ -> parse_full_msg m | [] -> failwith "msg result"
+let p_del rest = match rest with
+  | sz :: ms -> (z_of_string sz, List.map parse_full_msg ms)
+  | [] -> failwith "del result"
+let p_offs rest = match rest with o :: _ -> parse_offsets o | [] -> []
+
+let mutated cs = cs.cons1 <- []; cs.gets <- []; cs.last_stat_size <- None
+
+let run_check (path : string) =
+  let ic = open_in path in
+  let cs = ref (cfresh ()) in
+  let case = ref "" in
+  let lineno = ref 0 in
+  let cur_op : string list ref = ref [] in
+  let cur_line = ref 0 in
+  let scan_acc : msg list ref = ref [] in
+  let scan_final : z option ref = ref None in
+  let in_scan = ref false in
+  let scan_alog : alog option ref = ref None in
+  let scan_prop = ref "C01" in
+  let nfail = ref 0 in
+  let nchecked = ref 0 in
+  let fail prop clause got =
+    incr nfail;
+    Printf.printf "PFAIL case=%s line=%d prop=%s clause=%s op=%s got=%s\n" !case !cur_line prop clause
+      (String.concat "_" !cur_op) (String.concat "_" got) in
+  let chk prop clause b got = incr nchecked; if not b then fail prop clause got in
+  let isz () = item_size { ptimes = !cs.ctimes_; pkeys = !cs.ckeys_ } in
+  let finish_scan () =
+    if !in_scan then begin
+      in_scan := false;
+      (match !scan_final with
+       | Some n when not !cs.tainted ->
+         let al = (match !scan_alog with Some x -> x | None -> !cs.a) in
+         chk !scan_prop "scan_equals_live" (check_scan al !scan_acc n) ["scan"]
+       | _ -> ())
+    end in
+  (* evaluate one sub-query (also used for probe lines) *)
+  let eval_query (op : string list) (r : string list) =
+    let c = !cs in
+    if c.tainted then () else
+    match op with
+    | ["cons"; off; max] ->
+      let o = obs_of r p_consume in
+      let offz = z_of_string off and maxz = z_of_string max in
+      if int_of_string max >= 1 then
+        chk "C03" "consume" (check_consume c.a offz maxz o) r;
+      if max = "1" then begin
+        c.cons1 <- (int_of_string off, o) :: c.cons1;
+        (match List.assoc_opt (int_of_string off) c.gets with
+         | Some g -> chk "C04" "get_agrees_consume" (check_get_consume_agree offz g o) r
+         | None -> ())
+      end
+    | ["scan"; off] ->
+      let o = obs_of r p_consume in
+      chk "C03" "consume_scan" (check_consume c.a (z_of_string off) (z_of_int 7) o) r;
+      (match o with
+       | OOk (n, ms) -> scan_acc := !scan_acc @ ms; scan_final := Some n
+       | OErr _ -> scan_final := None)
+    | ["next"] | ["sync"] ->
+      chk "C02" "next_offset" (check_next c.a (obs_of r (fun l -> z_of_string (List.hd l)))) r
+    | ["get"; off] ->
+      let o = obs_of r p_msg in
+      let offz = z_of_string off in
+      chk "C04" "get" (check_get c.a offz o) r;
+      c.gets <- (int_of_string off, o) :: c.gets;
+      (match List.assoc_opt (int_of_string off) c.cons1 with
+       | Some co -> chk "C04" "get_agrees_consume" (check_get_consume_agree offz o co) r
+       | None -> ())
+    | ["getk"; k] ->
+      chk "C09" "get_by_key" (check_get_by_key c.a c.ckeys_ (bytes_of_hex k) (obs_of r p_msg)) r
+    | ["offk"; k] ->
+      let o = (match r with
+          | "ok" :: off :: _ ->
+            (match List.find_opt (fun m -> m.moff = z_of_string off) c.a.live with
+             | Some m -> OOk m
+             | None -> OOk { moff = z_of_string off; mtime = Z0; mkey = [z_of_int 0 |> fun _ -> N0]; mval = [] })
+          | _ -> obs_of r p_msg) in
+      chk "C09" "offset_by_key" (check_get_by_key c.a c.ckeys_ (bytes_of_hex k) o) r
+    | ["consk"; k; off; max] ->
+      chk "C09" "consume_by_key"
+        (check_consume_by_key c.a c.ckeys_ (bytes_of_hex k) (z_of_string off) (z_of_string max)
+           (obs_of r p_consume)) r
+    | ["gett"; t] ->
+      if c.mono_hist && not c.neg_time then
+        chk "C10" "get_by_time" (check_get_by_time c.a c.ctimes_ (z_of_string t) (obs_of r p_msg)) r
+      else if not c.ctimes_ then
+        chk "C10" "no_index" (check_get_by_time c.a false (z_of_string t) (obs_of r p_msg)) r
+      else if c.mono_hist && c.neg_time then begin
+        (* pre-1970 times: evaluated, reported under its own clause (known finding F11) *)
+        let ok = check_get_by_time c.a c.ctimes_ (z_of_string t) (obs_of r p_msg) in
+        chk "C10" "get_by_time_negative_times" ok r
+      end
+    | ["offt"; t] ->
+      if c.mono_hist && not c.neg_time then begin
+        let o = (match r with
+            | "ok" :: off :: tm :: _ ->
+              (match List.find_opt (fun m -> m.moff = z_of_string off) c.a.live with
+               | Some m when m.mtime = z_of_string tm -> OOk m
+               | _ -> OOk { moff = z_of_string off; mtime = z_of_string tm; mkey = [N0]; mval = [N0] })
+            | _ -> obs_of r p_msg) in
+        chk "C10" "offset_by_time" (check_get_by_time c.a c.ctimes_ (z_of_string t) o) r
+      end
+    | ["stat"] ->
+      (match r with
+       | "ok" :: _ :: cnt :: sz :: _ ->
+         chk "C13" "stat_count" (check_stat_count c.a (z_of_string cnt)) r;
+         c.last_stat_size <- Some (z_of_string sz);
+         (match c.size_bound with
+          | Some b ->
+            chk "C15" "size_bound_after_trim" (Z.ltb (z_of_string sz) b || c.a.live = []) r;
+            c.size_bound <- None
+          | None -> ())
+       | _ -> chk "C13" "stat_ok" false r)
+    | ["disksize"] ->
+      (match r, c.last_stat_size with
+       | "ok" :: sz :: _, Some st -> chk "C13" "stat_size_equals_files" (Z.eqb (z_of_string sz) st) r
+       | _ -> ())
+    | ["size"; m] ->
+      (match r with
+       | "ok" :: sz :: _ ->
+         chk "C13" "size_of_message"
+           (Z.eqb (z_of_string sz) (Z.add (rec_size c.cnewv (parse_msg m)) (isz ()))) r
+       | _ -> chk "C13" "size_ok" false r)
+    | ["findo"; b] ->
+      (match r with
+       | "ok" :: _ -> chk "C15" "find_by_offset" (check_find_by_offset c.a (z_of_string b) (p_offs (List.tl r))) r
+       | _ -> chk "C15" "find_by_offset_ok" false r)
+    | ["findc"; n] ->
+      (match r with
+       | "ok" :: _ -> chk "C15" "find_by_count" (check_find_by_count c.a (z_of_string n) (p_offs (List.tl r))) r
+       | _ -> chk "C15" "find_by_count_ok" false r)
+    | ["finds"; sz] ->
+      (match r, c.last_stat_size with
+       | "ok" :: _, Some total ->
+         let msz m = Z.add (rec_size c.cnewv m) (isz ()) in
+         chk "C15" "find_by_size" (check_find_by_size c.a msz total (z_of_string sz) (p_offs (List.tl r))) r
+       | "ok" :: _, None -> ()
+       | _ -> chk "C15" "find_by_size_ok" false r)
+    | ["finda"; t] ->
+      (match r with
+       | "ok" :: _ -> chk "C15" "find_by_age" (check_find_by_age c.a (z_of_string t) (p_offs (List.tl r))) r
+       | _ -> chk "C15" "find_by_age_ok" (c.a.live = []) r)   (* an empty log may report an error (C10) *)
+    | ["fupd"; t] ->
+      (match r with
+       | "ok" :: _ -> chk "C16" "find_updates" (check_find_updates c.a (z_of_string t) (p_offs (List.tl r))) r
+       | _ -> chk "C16" "find_updates_ok" false r)
+    | ["fdel"; t] ->
+      (match r with
+       | "ok" :: _ -> chk "C16" "find_deletes" (check_find_deletes c.a (z_of_string t) (p_offs (List.tl r))) r
+       | _ -> chk "C16" "find_deletes_ok" false r)
+    | _ -> () in
+  let apply_deleted prop (ms : msg list) r =
+    let c = !cs in
+    let before = c.a.live in
+    chk prop "deleted_were_live" (List.for_all (fun m -> List.exists (fun x -> x = m) before) ms) r;
+    c.a <- spec_delete c.a ms;
+    mutated c;
+    before in
+  let handle_result (r : string list) =
+    let c = !cs in
+    match !cur_op with
+    | "probe" :: _ ->
+      (* "<subop> => <result>" *)
+      let rec split acc l = (match l with
+          | "=>" :: rest -> (List.rev acc, rest)
+          | x :: rest -> split (x :: acc) rest
+          | [] -> (List.rev acc, [])) in
+      let (sub, res) = split [] r in
+      eval_query sub res
+    | "open" :: f ->
+      let fa = Array.of_list ("open" :: f) in
+      let cfg = parse_open fa in
+      (match r with
+       | "ok" :: _ ->
+         c.copen <- true; c.ckeys_ <- cfg.ckeys; c.ctimes_ <- cfg.ctimes; c.cro_ <- cfg.cro;
+         c.cnewv <- cfg.cnewver;
+         if not cfg.cro then (match cfg.cnewver with V1 -> c.v1ok <- true | V2 -> c.v2ok <- true);
+         mutated c
+       | _ -> ())
+    | ["close"] -> c.copen <- false; mutated c
+    | "pub" :: ms ->
+      let msgs = List.map parse_msg ms in
+      if c.cro_ then chk "C19" "readonly_rejects_publish" (r = ["err"; "Readonly"]) r
+      else begin
+        let o = obs_of r (fun l -> match l with
+            | n :: offs -> (z_of_string n, List.map z_of_string offs)
+            | [] -> failwith "pub result") in
+        if not c.tainted then chk "C02" "publish_offsets" (check_publish c.a msgs o) r;
+        (match o with
+         | OOk _ ->
+           c.a <- spec_publish c.a msgs;
+           List.iter (fun m ->
+               (match c.last_pub_time with
+                | Some t when Z.ltb m.mtime t -> c.mono_hist <- false
+                | _ -> ());
+               if Z.ltb m.mtime Z0 then c.neg_time <- true;
+               c.last_pub_time <- Some m.mtime) msgs;
+           mutated c
+         | OErr _ -> mutated c)
+      end
+    | ["del"; offs] ->
+      if c.cro_ then chk "C19" "readonly_rejects_delete" (r = ["err"; "Readonly"]) r
+      else begin
+        let o = obs_of r p_del in
+        if not c.tainted then
+          chk "C12" "delete" (check_delete c.a (isz ()) c.v1ok c.v2ok (parse_offsets offs) o) r;
+        (match o with OOk (_, ms) -> ignore (apply_deleted "C12" ms r) | OErr _ -> ())
+      end
+    | ["delm"; offs] ->
+      (match r with
+       | "err" :: cl :: sz :: ms ->
+         let msl = List.map parse_full_msg ms in
+         if not c.tainted then
+           chk "C12" "delete_multi_err"
+             (check_delete_multi c.a (isz ()) c.v1ok c.v2ok (parse_offsets offs) (OErr (eclass_of_string cl))) r;
+         ignore (apply_deleted "C12" msl r)
+       | _ ->
+         let o = obs_of r p_del in
+         if not c.tainted then
+           chk "C12" "delete_multi" (check_delete_multi c.a (isz ()) c.v1ok c.v2ok (parse_offsets offs) o) r;
+         (match o with OOk (_, ms) -> ignore (apply_deleted "C12" ms r) | OErr _ -> ()))
+    | [("trimo" | "trimc" | "trims" | "trima" | "cupd" | "cdel"
+       | "trim1o" | "trim1c" | "trim1s" | "trim1a" | "c1upd" | "c1del") as kind; arg] ->
+      let argz = z_of_string arg in
+      let multi = (String.length kind >= 4 && String.sub kind 0 4 = "trim" && kind.[4] <> '1')
+                  || kind = "cupd" || kind = "cdel" in
+      let (ok, sz, ms) = (match r with
+          | "ok" :: sz :: ms -> (true, z_of_string sz, List.map parse_full_msg ms)
+          | "err" :: _ :: sz :: ms when multi -> (false, z_of_string sz, List.map parse_full_msg ms)
+          | _ -> (false, Z0, [])) in
+      ignore sz;
+      let prop = (if kind = "cupd" || kind = "cdel" || kind = "c1upd" || kind = "c1del" then "C16" else "C15") in
+      let sel = List.map (fun m -> m.moff) ms in
+      if not c.tainted then begin
+        chk prop "helper_ok" (ok || ((kind = "trima" || kind = "trim1a") && c.a.live = [])) r;
+        (* what was removed must be allowed to be selected *)
+        (match kind with
+         | "trimo" -> chk "C15" "trim_by_offset" (check_find_by_offset c.a argz sel) r
+         | "trimc" -> chk "C15" "trim_by_count" (check_find_by_count c.a argz sel) r
+         | "trima" -> chk "C15" "trim_by_age" (check_find_by_age c.a argz sel) r
+         | "trims" ->
+           (match c.last_stat_size with
+            | Some total ->
+              let msz m = Z.add (rec_size c.cnewv m) (isz ()) in
+              if not (c.v1ok && c.v2ok) then
+                chk "C15" "trim_by_size" (check_find_by_size c.a msz total argz sel) r
+            | None -> ());
+           if not (c.v1ok && c.v2ok) then c.size_bound <- Some argz
+         | "trim1o" -> chk "C15" "trim1_by_offset_subset"
+                         (List.for_all (fun o -> Z.ltb o argz || arg = "-1") sel) r
+         | "cupd" | "c1upd" ->
+           chk "C16" "compact_updates_allowed"
+             (List.for_all (fun o -> List.exists (fun m -> m.moff = o) c.a.live) sel
+              && check_updates_sel argz sel c.a.live) r
+         | "cdel" | "c1del" ->
+           chk "C16" "compact_deletes_allowed" (check_deletes_sel argz sel [] c.a.live) r
+         | _ -> ())
+      end;
+      let saved_bound = c.size_bound in
+      let before = apply_deleted prop ms r in
+      c.size_bound <- saved_bound;
+      if prop = "C16" && not c.tainted then
+        chk "C16" "latest_preserved" (check_latest_preserved before c.a.live) r;
+      if kind = "cupd" && not c.tainted && c.mono_hist then
+        chk "C16" "updates_bound" ((let rest = List.filter (fun m -> Z.leb m.mtime argz) c.a.live in
+                                       List.for_all (fun m ->
+                                           List.length (List.filter (fun x -> x.mkey = m.mkey) rest) <= 1) rest)) r
+    | ["backup"; name] | ["backupdir"; name] ->
+      (match r with
+       | "ok" :: _ -> c.bk <- (name, c.a) :: List.remove_assoc name c.bk
+       | _ -> if not c.tainted then chk "C20" "backup_ok" false r)
+    | ["bkobs"; name; _] ->
+      (* lines: "<sub> => <result>" evaluated against the abstract state at backup time *)
+      (match List.assoc_opt name c.bk with
+       | None -> ()
+       | Some a ->
+         let rec split acc l = (match l with
+             | "=>" :: rest -> (List.rev acc, rest)
+             | x :: rest -> split (x :: acc) rest
+             | [] -> (List.rev acc, [])) in
+         let (sub, res) = split [] r in
+         (match sub with
+          | ["check"; _] | ["open"] -> chk "C20" "backup_checks_and_opens" false r
+          | ["next"] -> chk "C20" "backup_next" (check_next a (obs_of res (fun l -> z_of_string (List.hd l)))) r
+          | ["scan"; off] ->
+            let o = obs_of res p_consume in
+            chk "C20" "backup_consume" (check_consume a (z_of_string off) (z_of_int 7) o) r;
+            (match o with
+             | OOk (n, ms) -> scan_acc := !scan_acc @ ms; scan_final := Some n; in_scan := true
+             | OErr _ -> ())
+          | ["get"; off] -> chk "C20" "backup_get" (check_get a (z_of_string off) (obs_of res p_msg)) r
+          | ["stat"] ->
+            (match res with
+             | "ok" :: _ :: cnt :: _ -> chk "C20" "backup_stat_count" (check_stat_count a (z_of_string cnt)) r
+             | _ -> chk "C20" "backup_stat_ok" false r)
+          | _ -> ()))
+    | ["rmindex"; _] | ["gc"] | ["sleepms"; _] | ["bkclean"; _] -> ()
+    | ["migrate"; v] ->
+      (match r with
+       | "ok" :: _ -> (if v = "1" then (c.v1ok <- true; c.v2ok <- false) else (c.v2ok <- true; c.v1ok <- false))
+       | _ -> if not c.tainted then chk "C17" "migrate_ok" false r)
+    | ["checkdir"] | ["checkall"] ->
+      (* C11: after a clean close every segment passes Check (only claimed for monotone times with a time index) *)
+      if not c.tainted && (c.mono_hist && not c.neg_time || not c.ctimes_) then
+        chk "C11" "closed_segments_check" (r = ["ok"]) r
+    | ["recoverdir"] -> if not c.tainted then chk "C07" "recoverdir_ok" (r = ["ok"]) r
+    | op -> eval_query op r in
+  (try
+     while true do
+       let line = String.trim (input_line ic) in
+       incr lineno;
+       if line = "" || line.[0] = '#' then ()
+       else if String.length line > 5 && String.sub line 0 5 = "case " then begin
+         finish_scan ();
+         cs := cfresh (); case := String.sub line 5 (String.length line - 5)
+       end else if line.[0] = '=' then begin
+         let r = toks (String.sub line 1 (String.length line - 1)) in
+         (try handle_result r with Failure m -> Printf.printf "PWARN case=%s line=%d parse %s\n" !case !lineno m)
+       end else begin
+         finish_scan ();
+         cur_op := toks line; cur_line := !lineno;
+         (match !cur_op with
+          | ["probe"; "scan"] -> in_scan := true; scan_acc := []; scan_final := None; scan_alog := None; scan_prop := "C01"
+          | "bkobs" :: name :: _ -> scan_acc := []; scan_final := None; scan_prop := "C20";
+            scan_alog := List.assoc_opt name !cs.bk
+          | _ -> ())
+       end
+     done
+   with End_of_file -> ());
+  finish_scan ();
+  close_in ic;
+  Printf.printf "PSUMMARY checked=%d failed=%d\n" !nchecked !nfail
+
 let () =
   match Array.to_list Sys.argv with
   | _ :: "hist" :: path :: _ -> run_hist path
+  | _ :: "check" :: path :: _ -> run_check path
   | _ -> prerr_endline "usage: kvmodel hist <file>"; exit 2
